@@ -30,7 +30,7 @@ RULE = (
     "absent key, or the fill loop needed >= 2 rounds."
 )
 ASSUMPTIONS = ["dictionaries without dangling template references; random programs carry no domains (premise of validate/evaluate agreement, C10)"]
-FLOORS = {"effect_option_cases": (576, 576), "effect_option_cases_effects_off": (192, 192), "explain_ok": (8000, 150000), "explain_with_missing": (3000, 60000), "no_missing_and_validates": (2500, 50000),
+FLOORS = {"datasetclass_explain_cases": (1200, 24000), "effect_option_cases": (576, 576), "effect_option_cases_effects_off": (192, 192), "explain_ok": (8000, 150000), "explain_with_missing": (3000, 60000), "no_missing_and_validates": (2500, 50000),
           "explain_insufficient_information": (300, 6000), "fill_loops_completed": (400, 8000), "fill_loops_multi_round": (3, 30),
           "subdictionary_cases": (4000, 80000)}
 SHARDS_QUICK = 4
@@ -211,8 +211,48 @@ def effect_case(ctx):
                     ctx.nontrivial(spec_hash(["effect-options", name, sorted(present), str(switch)]))
 
 
+def datasetclass_explain(ctx, i):
+    """Dataset classes (generated like C19's: inherited / un-annotated / dotted / dispatching members): explain covers
+    keys, its absent keys are exactly what validate still needs, a missing-key failure names a listed key."""
+    from .c19 import gen_options, make_class
+
+    r = case_rng(ctx, ("dc", i))
+    cls, members, raw = make_class(r)
+    relevant = sorted({k for _, ks in members.values() for k in ks})
+    for _ in range(5):
+        o = gen_options(r, relevant)
+        for k in r.sample(relevant, min(len(relevant), r.choice([0, 1, 2, 3]))):
+            o = U.del_path(o, k)
+        ex = observe(cls.explain, copy.deepcopy(o))
+        ks = observe(cls.keys, copy.deepcopy(o))
+        va = observe(cls.validate, copy.deepcopy(o))
+        ctx.evaluations += 3
+        ctx.count("datasetclass_explain_cases")
+        W = {"family": "datasetclass", "case": i, "shard": ctx.shard, "shards": ctx.shards, "members": {k: list(v) for k, v in members.items()}, "options": o}
+        if ex[0] != "ok":
+            if ex[1] != "InsufficientInformationError":
+                ctx.violation("explain-raises-other-error", f"dataset class explain(o) raised {short(ex)}", W)
+                return
+            continue
+        explained = {k[1] for k in ex[1][1]}
+        missing = {k for k in explained if not U.present(k, o)}
+        if ks[0] == "ok" and not {k[1] for k in ks[1][1]} <= explained:
+            ctx.violation("explain-misses-keys", f"dataset class: keys(o)={short(ks)} not covered by explain(o)={sorted(explained)}", W)
+            return
+        if bool(missing) == (va[0] == "ok"):
+            ctx.violation("explain-validate-disagree", f"dataset class: explain lists absent {sorted(missing)}, validate {'passes' if va[0] == 'ok' else 'fails: ' + short(va)}", W)
+            return
+        if va[0] == "err" and va[1] == "KeyNotFoundError" and va[2] not in explained:
+            ctx.violation("validate-names-unlisted-key", f"dataset class: validate fails for {va[2]!r}, explain lists {sorted(explained)}", W)
+            return
+        if missing:
+            ctx.nontrivial(spec_hash(["dc-explain", sorted(members.items()), o]))
+
+
 def run(ctx):
     rng = ctx.rng
+    for i in range(ctx.n(300, 6000)):
+        datasetclass_explain(ctx, i)
     if ctx.shard == 0:
         effect_case(ctx)
     dicts = [d for d in directed.dictionaries() if U.closed(d) and not any(isinstance(d.get(k), dict) for k in ("A", "B", "C"))
@@ -258,5 +298,9 @@ def run(ctx):
 
 def replay(ctx, rep):
     w = rep["witness"]
+    if w.get("family") == "datasetclass":
+        ctx.shard, ctx.shards = w.get("shard", 0), w.get("shards", 1)
+        datasetclass_explain(ctx, w["case"])
+        return
     G = build(w["program"])
     one(ctx, w["program"], w["options"], G, selector_datasets(w["program"]), "replay")
